@@ -421,6 +421,53 @@ def runOld (st : St) : List Op → St × List Out
     let (st2, os) := runOld st1 r
     (st2, o :: os)
 
+/-! ### the ES `_aliases` request (pkg/es/writer/esAliases.go: ProcessPostAliasesRequest :167, processActions :207,
+parseAddAction :240, doAddAliases :268, parseRemoveAction :310)
+
+One request carries a list of actions: add with `index`, add with `indices` (the alias for each of them),
+remove; anything else (unknown action name, missing / non-string members) is refused.  With patches c20-20 /
+c20-21 the actions run in order, the FIRST refused action (or refused `AddAliases` / `RemoveAliases`) ends the
+request with 400, the actions before it stay applied, and only a request all of whose actions were accepted is
+answered `acknowledged`.  A request therefore IS a prefix of a sequence of add / remove operations: every
+theorem about operation sequences covers states reached through requests (`post_is_run`). -/
+
+inductive Act where
+  | add (i a : Key)                    -- { "add": { "index": i, "alias": a } }
+  | addMany (is : List Key) (a : Key)  -- { "add": { "indices": [...], "alias": a } }
+  | remove (i a : Key)                 -- { "remove": { "index": i, "alias": a } }
+  | refuse                             -- an action the handler cannot read
+  deriving DecidableEq
+
+/-- the add / remove operations an action stands for (`none` = refused before any store call) -/
+def actOps (t : Nat) : Act → List (Option Op)
+  | .add i a => [some (.add t i a)]
+  | .addMany is a => is.map (fun i => some (.add t i a))
+  | .remove i a => [some (.remove t i a)]
+  | .refuse => [none]
+
+/-- run the operations in order up to and including the first one that is not answered ok -/
+def postRun (st : St) : List (Option Op) → St × Bool
+  | [] => (st, true)
+  | none :: _ => (st, false)
+  | some op :: r => if (step st op).2 = .res .ok then postRun (step st op).1 r else ((step st op).1, false)
+
+/-- the operations `postRun` executes -/
+def executed (st : St) : List (Option Op) → List Op
+  | [] => []
+  | none :: _ => []
+  | some op :: r => if (step st op).2 = .res .ok then op :: executed (step st op).1 r else [op]
+
+/-- one `_aliases` request of tenant `t`: the state afterwards and "acknowledged" -/
+def post (st : St) (t : Nat) (acts : List Act) : St × Bool := postRun st (acts.flatMap (actOps t))
+
+/-- before patches c20-20 / c20-21: an `indices` action was refused before its loop (`indexName.(string)` on the
+absent `index`), no refused action stopped the request, and the answer was ALWAYS 200 acknowledged -/
+def postOld (st : St) (t : Nat) (acts : List Act) : St × Bool :=
+  (acts.foldl (fun s act => match act with
+    | .add i a => (step s (.add t i a)).1
+    | .remove i a => (step s (.remove t i a)).1
+    | _ => s) st, true)
+
 end Alias
 
 /-! ## dashboards and folders (pkg/dashboards/dashboards.go, folders.go)
